@@ -190,6 +190,8 @@ def build(v, env, ghost_fn):
             return {_KB.key(v['$set'], k) for k in v['items']}
         if '$kseq' in v:
             return tuple(_KB.key(v['$kseq'], k) for k in v['items'])
+        if '$numstr' in v:
+            return build_numstr(v['$numstr'])
         if '$opaque' in v:
             tag = v['$opaque']
             if 'rng' in tag or 'Random' in tag:
@@ -207,6 +209,34 @@ def build(v, env, ghost_fn):
                     pass
             return obj
     raise ValueError(f'cannot build {v!r}')
+
+
+def digit_string(val, length, base):
+    """the base-`base` digit string of exactly `length` digits (leading zeros) whose positional value is `val`"""
+    if val < 0 or length < 0 or val >= base ** length:
+        raise ValueError(f'non-standard digit string: value {val} does not fit {length} base-{base} digits')
+    out = ''
+    for _ in range(length):
+        out = '0123456789abcdef'[val % base] + out
+        val //= base
+    return out
+
+
+def build_numstr(d):
+    """rebuild the text of a symbolic numeral spelling from its decomposition (pyvc/strings.py)"""
+    kind = d.get('kind')
+    if kind == 'none':
+        return '0'
+    if not d['matches']:
+        return '?'              # any string outside the grammar
+    base, prefix, marker = (10, '', 'e') if kind == 'dec' else (16, '0x', 'p')
+    sg = ['', '+', '-']
+    out = sg[d['sign']] + prefix + digit_string(d['I'][0], d['I'][1], base)
+    if d['has_frac']:
+        out += '.' + digit_string(d['F'][0], d['F'][1], base)
+    if d['has_exp']:
+        out += marker + sg[d['esign']] + digit_string(d['E'][0], d['E'][1], 10)
+    return out
 
 
 def make_ghost(ghost):
@@ -310,6 +340,11 @@ def replay(doc, ghost_override=None):
     for k, v in snap.items():
         setattr(old_ns, k, v)
     is_init = parts[-1] == '__init__'
+    # callees that the contract treats by a TRUSTED contract may name a native stub realising it
+    for tgt, stub in (getattr(C, 'native_stubs', None) or {}).items():
+        owner = _cls(tgt.rpartition('.')[0]) if '.' in tgt.partition(':')[2] else importlib.import_module(tgt.partition(':')[0])
+        attr = tgt.rpartition('.')[2] if '.' in tgt.partition(':')[2] else tgt.partition(':')[2]
+        setattr(owner, attr, _cls(stub)(getattr(owner, attr)))
     try:
         if len(parts) == 1:
             fn = getattr(m, parts[0])
@@ -320,6 +355,15 @@ def replay(doc, ghost_override=None):
             if raw is None:
                 raw = getattr(cls, parts[1])
             rest = {k: v for k, v in args.items() if k not in ('self', 'cls')}
+            # GHOST parameters (declared by the contract, not by the target) are for pre/post only
+            try:
+                import inspect
+                fobj = raw.__func__ if isinstance(raw, (staticmethod, classmethod)) else (raw.fget if isinstance(raw, property) else raw)
+                sig = inspect.signature(fobj)
+                if not any(p.kind == p.VAR_KEYWORD for p in sig.parameters.values()):
+                    rest = {k: v for k, v in rest.items() if k in sig.parameters}
+            except (TypeError, ValueError):
+                pass
             if is_init:
                 obj = cls.__new__(cls)
                 cls.__init__(obj, **rest)
